@@ -7,7 +7,7 @@ class C07(StartupProp):
     tags = ("C07",)
     quick_cases = 400
     thorough_cases = 15000
-    gen_kwargs = {"max_nodes": 9, "max_depth": 4, "p_await": 0.3, "p_fail": 0.7, "p_timeout": 0.3, "p_stuck": 0.1}
+    gen_kwargs = {"max_nodes": 9, "max_depth": 4, "p_await": 0.3, "p_fail": 0.7, "p_timeout": 0.3, "p_stuck": 0.1, "p_failfac": 0.12}
     rule = ("generated trees with one failing component: every choice of component x phase (constructor / prepare / "
             "start) x position in its script, failure instant swept against the siblings' progress through tick delays; "
             "time-outs at k+0.5 ticks for k in 0..14 (never tying with an event) and none; cyclic programs. "
